@@ -14,7 +14,7 @@ import (
 func init() { register(&Check{ID: "C18", Run: runC18, ShardDepth: 2}) }
 
 var c18States = []string{"empty", "fresh", "stale", "stale+must-revalidate", "no-cache", `no-cache="X-Secret"`,
-	"stale+swr", "stale+sie", "other-variant", "vary-star", "bad-entry", "bad-index", "get-error", "fresh+must-revalidate", "stale-heuristic", "fresh+immutable", "stale+immutable"}
+	"stale+swr", "stale+sie", "other-variant", "vary-star", "bad-entry", "bad-index", "get-error", "fresh+must-revalidate", "stale-heuristic", "fresh+immutable", "stale+immutable", "earlier reply was no-store", "other-variant, Vary list with * first"}
 
 func runC18(x *mc.X) {
 	// (chosen first, so that in depth-first order a primed execution is not immediately preceded by the very
@@ -64,6 +64,11 @@ func runC18(x *mc.X) {
 		reqHdr = []string{"X-A", "1"}
 	case "vary-star":
 		h = H("Cache-Control", "max-age=100", "Vary", "*")
+	case "other-variant, Vary list with * first":
+		h = H("Cache-Control", "max-age=100", "Vary", "*", "Vary", "X-A")
+		reqHdr = []string{"X-A", "1"}
+	case "earlier reply was no-store": // nothing is stored, but the cache has seen the resource
+		h = H("Cache-Control", "no-store")
 	case "bad-entry", "bad-index", "get-error":
 		h = H("Cache-Control", "max-age=100", "ETag", `"v1"`)
 	}
@@ -72,7 +77,9 @@ func runC18(x *mc.X) {
 		answer(w, RS{Status: 200, H: h})
 		stored = get(w, U, reqHdr...)
 		logObs(x, "prologue GET", stored)
-		if stored.Tok == "" || !strings.Contains(w.Conn.Snapshot(), stored.Tok) {
+		if state == "earlier reply was no-store" {
+			stored = nil // (nothing may be stored: any response without origin contact other than a 504 is a violation)
+		} else if stored.Tok == "" || !strings.Contains(w.Conn.Snapshot(), stored.Tok) {
 			x.Failf("harness: prologue did not store", "state %s: prologue response not stored", state)
 			return
 		}
@@ -209,7 +216,7 @@ func runC18(x *mc.X) {
 		return false
 	}
 	switch {
-	case state == "no-cache", state == "stale+must-revalidate", state == "vary-star", state == "other-variant":
+	case state == "no-cache", state == "stale+must-revalidate", state == "vary-star", state == "other-variant", state == "other-variant, Vary list with * first":
 		x.Failf("served unvalidated: state="+state, "stored response served under only-if-cached although it requires validation / does not match: %s", o.String())
 	case has("no-cache") || has("max-age=0"):
 		x.Failf("served unvalidated: request "+sigExtras(ds), "stored response served although the request demands validation: %s", o.String())
